@@ -38,7 +38,7 @@ ASSUMPTIONS = [
     "TextGrid times are compared to the written values within one unit of the last printed digit",
     "ctm times: exact on dyadic grids, 1e-9 otherwise (start + (end - start) is not always end in binary)",
     "tokens avoid the delimiters of their format (trn: (){}/ and white space; ctm: white space and ';;'; TextGrid: '\"' and newlines)",
-    "TextGrid transcripts are time-ordered and non-overlapping (a tier); entries with identical printed times come back in written order",
+    "TextGrid transcripts are non-overlapping (a tier); written in time order, or - with distinct printed starts - in any order (the reader returns time order); entries with identical printed times come back in written order",
     "fork pool observed through a wrapper of _parsing._trn_line_to_transcript installed in the parent before the fork; time.monotonic comparable across processes",
     "USE_JIT off (library runs as plain Python)",
 ]
@@ -375,7 +375,20 @@ def _tg_body(case, mon, tmp, holder):
     name = case["tier_name"] if case["tier_name"] is not None else config.DEFT_TEXTGRID_TIER_NAME
     P = lambda x: "%.*f" % (p, x)
     pr = [(float(P(s)), float(P(e))) for _, s, e in tr]
-    if any(a[1] > b[0] or a > b for a, b in zip(pr, pr[1:])) or any(s > e for s, e in pr):
+    out_of_order = False
+    if case.get("write_shuffled") and len(tr) >= 2 and len(set(a for a, _ in pr)) == len(pr) \
+            and not (any(a[1] > b[0] or a > b for a, b in zip(pr, pr[1:])) or any(s > e for s, e in pr)):
+        # a proper tier (distinct printed starts, no overlap) handed to the writer in another order than time order:
+        # the writer keeps the caller's order, the reader returns the tier in time order
+        import random as _random
+
+        order = list(range(len(tr)))
+        _random.Random(len(tr) * 7919 + int(pr[0][0] * 1000)).shuffle(order)
+        if order != sorted(order):
+            tr_sorted, tr = list(tr), [tr[j] for j in order]
+            out_of_order = True
+            mon.cls("tg_written_out_of_time_order")
+    if not out_of_order and (any(a[1] > b[0] or a > b for a, b in zip(pr, pr[1:])) or any(s > e for s, e in pr)):
         # not a tier as written (printed entries overlap or are out of time order): the reader's order is
         # unspecified then.  Judged on the printed values, which is all a reader can see.
         mon.ood("tg_not_a_tier")
@@ -421,6 +434,8 @@ def _tg_body(case, mon, tmp, holder):
         mon.stat("tg_path_bytes_differ")
     else:
         mon.stat("tg_path_bytes_equal")
+    if out_of_order:
+        tr = tr_sorted  # what a reader is to return
     pa, ba = pb, bb  # judge the round trip on the file written with all options honoured
     text = ba.decode("utf-8")
     lo_exp, hi_exp = min(starts), max(e for _, _, e in tr)
